@@ -6,7 +6,8 @@ PROPS["C01"] = dict(
          "decisions interpreted against the enabled moves {start next command of an idle worker, release the parked storage call of worker w, "
          "cancel a running attempt, lapse a record that has no live holder}; up to two faults (request lost / reply lost) on Create, Delete or "
          "WaitForVersionChange by release index; the sweep unit re-runs every fault-free base case with a single fault at every release index "
-         "(<= 40) of both kinds, plus drawn pairs. The clock is frozen, so leases of live holders never run out (the premise of C01). "
+         "(<= 40) of both kinds, plus drawn pairs. The clock is frozen, so leases of live holders never run out (the premise of C01); the longwaiter unit adds the real-clock scenario "
+         "'B waits 0.6..3.1 leases in Lock() while A holds and renews, A unlocks, B holds 2.5 leases, a contender must stay excluded' (lease 300 ms). "
          "non-trivial = a Create of one Locker object met the record of another (ErrExist), or a fault or a cancel hit a parked attempt; "
          "distinct = hash of the case",
     assumptions=["interleavings are controlled at storage-operation granularity; goroutine interleavings inside one storage call are not (the in-memory "
@@ -16,6 +17,7 @@ PROPS["C01"] = dict(
     units=[
         dict(name="rapid", run="^TestC01Rapid$", checks=(6000, 50000), shards=(2, 16), timeout=(300, 1800)),
         dict(name="sweep", run="^TestC01FaultSweep$", checks=(150, 1500), shards=(2, 16), timeout=(300, 1800)),
+        dict(name="longwaiter", run="^TestC01LongWaiter$", shards=1, timeout=(300, 900)),
         dict(name="stress", run="^TestC01Stress$", checks=(0, 150), shards=(1, 8), timeout=(300, 1800), race=(False, True), enabled=(False, True)),
     ],
 )
